@@ -1,6 +1,862 @@
+/-
+  C18 — metadata updates touch exactly the named IDs and keys; a mapping file parses to the
+  relation its rows describe.
+
+  Model of: Table.add_metadata / del_metadata / _cast_metadata (biom/table.py),
+  MetadataMap.from_file (biom/parse.py) at line/field level over `List Char`,
+  _add_metadata and the option handling of the `add-metadata` command (biom/cli/metadata_adder.py).
+
+  Texts are `List Char` inside the file model (all string work is list work); they become
+  `String` only at the JSON boundary.  Metadata values in a table are opaque canonical texts
+  (`Biom.Md`); values produced by the mapping-file conversions are structured (`Val`) and rendered
+  to the same canonical texts by `Val.text`.
+-/
 import BiomModel.Codec
 open Lean
+
 namespace Biom.C18
-/-- stub: not built yet -/
-def handle (_req : Json) : Codec.R Json := .error "C18: model not built yet"
+
+abbrev Str := List Char
+
+/-! ## Python `dict` as an association list (first position, last value) -/
+section Dict
+variable {κ β : Type} [DecidableEq κ]
+
+/-- `d.get(k)` -/
+def dget : List (κ × β) → κ → Option β
+  | [], _ => none
+  | (k', v) :: r, k => if k' = k then some v else dget r k
+
+/-- the value the *last* pair with key `k` carries (what a sequence of assignments leaves) -/
+def dgetLast : List (κ × β) → κ → Option β
+  | [], _ => none
+  | (k', v) :: r, k =>
+    match dgetLast r k with
+    | some w => some w
+    | none => if k' = k then some v else none
+
+/-- `d[k] = v` -/
+def dictSet : List (κ × β) → κ → β → List (κ × β)
+  | [], k, v => [(k, v)]
+  | (k', v') :: r, k, v => if k' = k then (k', v) :: r else (k', v') :: dictSet r k v
+
+/-- `d.update(e)` -/
+def dictUpdate (d e : List (κ × β)) : List (κ × β) := e.foldl (fun d kv => dictSet d kv.1 kv.2) d
+
+/-- `del d[k]` (guarded by `k in d`) -/
+def dictDel (d : List (κ × β)) (k : κ) : List (κ × β) := d.filter (fun kv => decide (kv.1 ≠ k))
+
+/-- a dict built by successive assignments -/
+def mkDict (e : List (κ × β)) : List (κ × β) := dictUpdate [] e
+
+def dkeys (d : List (κ × β)) : List κ := d.map (·.1)
+end Dict
+
+/-! ## add_metadata / del_metadata / _cast_metadata -/
+section TableOps
+variable {α : Type}
+
+def setMd (t : Table α) (ax : Axis) (m : Option (List Md)) : Table α :=
+  match ax with
+  | .obs => { t with omd := m }
+  | .samp => { t with smd := m }
+
+def modifyAt {β : Type} (f : β → β) : Nat → List β → List β
+  | _, [] => []
+  | 0, x :: xs => f x :: xs
+  | n + 1, x :: xs => x :: modifyAt f n xs
+
+/-- `cast_metadata`: `None` stays `None`; a tuple whose items are all `None` (in particular the empty
+    tuple) becomes `None`; otherwise every item becomes a default-None mapping (`None` → empty). -/
+def castMd : Option (List (Option Md)) → Option (List Md)
+  | none => none
+  | some tup => if tup.all (·.isNone) then none else some (tup.map (·.getD []))
+
+/-- one iteration of `for id_, md_entry in md.items()` when the axis already has metadata -/
+def updStep (ids : List Id) (mds : List Md) (ie : Id × Md) : List Md :=
+  match indexOf? ids ie.1 with
+  | some i => modifyAt (fun old => dictUpdate old ie.2) i mds
+  | none => mds
+
+/-- the metadata tuple of the axis before `_cast_metadata` runs -/
+def addPre (t : Table α) (m : List (Id × Md)) (ax : Axis) : List (Option Md) :=
+  match t.md ax with
+  | some mds => (m.foldl (updStep (t.ids ax)) mds).map some
+  | none => (t.ids ax).map (fun id => dget m id)
+
+/-- `Table.add_metadata(md, axis)` for a recognised axis; `_cast_metadata` re-casts both axes -/
+def addMetadata (t : Table α) (m : List (Id × Md)) (ax : Axis) : Table α :=
+  let t1 := setMd t ax (castMd (some (addPre t m ax)))
+  setMd t1 ax.other (castMd ((t.md ax.other).map (·.map some)))
+
+inductive AxisArg where
+  | sample | observation | whole | bad
+  deriving Repr, DecidableEq
+
+def AxisArg.toAxis? : AxisArg → Option Axis
+  | .sample => some .samp
+  | .observation => some .obs
+  | _ => none
+
+/-- `add_metadata` with the axis as the caller wrote it ('whole' is not an axis of this method) -/
+def addMetadataArg (t : Table α) (m : List (Id × Md)) (ax : AxisArg) : Except Err (Table α) :=
+  match ax.toAxis? with
+  | some a => .ok (addMetadata t m a)
+  | none => .error .unknownAxis
+
+def AxisArg.chosen : AxisArg → Axis → Bool
+  | .sample, .samp => true
+  | .observation, .obs => true
+  | .whole, _ => true
+  | _, _ => false
+
+/-- the deletion loop of one axis plus the collapse to `None` -/
+def delAxis (keys : List String) : Option (List Md) → Option (List Md)
+  | none => none
+  | some mds =>
+    let mds' := mds.map (fun e => keys.foldl dictDel e)
+    if !mds'.isEmpty && mds'.all (·.isEmpty) then none else some mds'
+
+def delOn (keys : Option (List String)) (md : Option (List Md)) : Option (List Md) :=
+  match keys with
+  | none => none
+  | some ks => delAxis ks md
+
+/-- `Table.del_metadata(keys, axis)` -/
+def delMetadata (t : Table α) (keys : Option (List String)) (ax : AxisArg) : Except Err (Table α) :=
+  if ax = .bad then .error .unknownAxis
+  else .ok { t with omd := if ax.chosen .obs then delOn keys t.omd else t.omd,
+                    smd := if ax.chosen .samp then delOn keys t.smd else t.smd }
+
+/-! ### the property on observations -/
+
+/-- value of key `k` on ID `id` of axis `ax` (`none`: no metadata, unknown ID or absent key) -/
+def keyOf (t : Table α) (ax : Axis) (id : Id) (k : String) : Option String :=
+  (t.mdOf? ax id).bind (fun e => dget e k)
+
+def allKeys (md : Option (List Md)) : List String :=
+  match md with
+  | none => []
+  | some mds => mds.flatMap dkeys
+
+/-- IDs, their order, the grid and the type are as before -/
+def frameSame [DecidableEq α] (before after : Table α) : Bool :=
+  after.obs == before.obs && after.samp == before.samp && decide (after.rows = before.rows) &&
+  after.ttype == before.ttype
+
+/-- one metadata entry per ID whenever the axis has metadata -/
+def mdShape (t : Table α) (ax : Axis) : Bool :=
+  match t.md ax with
+  | none => true
+  | some mds => mds.length == (t.ids ax).length
+
+/-- what the mapping says about (id, k), else what was there before -/
+def addExpected (before : Table α) (m : List (Id × Md)) (ax : Axis) (id : Id) (k : String) : Option String :=
+  match dget m id with
+  | some e => (match dget e k with
+               | some v => some v
+               | none => keyOf before ax id k)
+  | none => keyOf before ax id k
+
+/-- the update clause for one axis: every (ID, key) pair is what `addExpected` says; checked over
+    the keys that occur before, after or in the mapping -/
+def addAxisClause (before : Table α) (m : List (Id × Md)) (ax : Axis) (after : Table α) : Bool :=
+  let ks := allKeys (before.md ax) ++ allKeys (after.md ax) ++ m.flatMap (fun ie => dkeys ie.2)
+  mdShape after ax &&
+  (before.ids ax).all (fun id => ks.all (fun k => keyOf after ax id k == addExpected before m ax id k))
+
+def addHolds [DecidableEq α] (before : Table α) (m : List (Id × Md)) (ax : Axis) (after : Table α) : Bool :=
+  frameSame before after && addAxisClause before m ax after &&
+  decide (after.md ax.other = before.md ax.other)
+
+def delExpected (before : Table α) (keys : Option (List String)) (arg : AxisArg) (ax : Axis) (id : Id)
+    (k : String) : Option String :=
+  if arg.chosen ax && (match keys with | none => true | some ks => ks.contains k) then none
+  else keyOf before ax id k
+
+/-- after a deletion with explicit keys a chosen axis never keeps a tuple of empty entries -/
+def collapsed (md : Option (List Md)) : Bool :=
+  match md with
+  | none => true
+  | some mds => mds.isEmpty || mds.any (fun e => !e.isEmpty)
+
+def delAxisClause (before : Table α) (keys : Option (List String)) (arg : AxisArg) (ax : Axis)
+    (after : Table α) : Bool :=
+  let ks := allKeys (before.md ax) ++ allKeys (after.md ax) ++ keys.getD []
+  mdShape after ax &&
+  (before.ids ax).all (fun id => ks.all (fun k => keyOf after ax id k == delExpected before keys arg ax id k)) &&
+  (if arg.chosen ax then (match keys with | none => (after.md ax).isNone | some _ => collapsed (after.md ax))
+   else decide (after.md ax = before.md ax))
+
+def delHolds [DecidableEq α] (before : Table α) (keys : Option (List String)) (arg : AxisArg) (after : Table α) : Bool :=
+  frameSame before after && delAxisClause before keys arg .obs after && delAxisClause before keys arg .samp after
+
+end TableOps
+
+/-! ## MetadataMap.from_file over characters -/
+
+/-- `str.isspace` -/
+def isWs (c : Char) : Bool :=
+  let n := c.toNat
+  (9 ≤ n && n ≤ 13) || (28 ≤ n && n ≤ 32) || n == 0x85 || n == 0xa0 || n == 0x1680 ||
+  (0x2000 ≤ n && n ≤ 0x200a) || n == 0x2028 || n == 0x2029 || n == 0x202f || n == 0x205f || n == 0x3000
+
+def lstrip (s : Str) : Str := s.dropWhile isWs
+def rstrip (s : Str) : Str := (s.reverse.dropWhile isWs).reverse
+/-- `str.strip()` -/
+def strip (s : Str) : Str := lstrip (rstrip s)
+/-- `x.replace('"', '')` -/
+def unquote (s : Str) : Str := s.filter (fun c => c != '"')
+
+structure Opts where
+  stripQuotes : Bool := true
+  suppress : Bool := false
+  deriving Repr, DecidableEq
+
+/-- the four `strip_f` closures -/
+def stripF (o : Opts) (x : Str) : Str :=
+  let y := if o.stripQuotes then unquote x else x
+  if o.suppress then y else strip y
+
+/-- `x.split(c)` for a one-character separator -/
+def splitOnC (c : Char) : Str → List Str
+  | [] => [[]]
+  | x :: xs =>
+    if x = c then [] :: splitOnC c xs
+    else
+      let r := splitOnC c xs
+      (x :: r.headD []) :: r.tail
+
+/-- `tmp_line.extend([''] * (len(header) - len(tmp_line)))` -/
+def pad (n : Nat) (fs : List Str) : List Str := fs ++ List.replicate (n - fs.length) []
+
+structure PState where
+  header : List Str
+  rows : List (List Str)
+  deriving Repr, DecidableEq
+
+/-- the body of `for line in lines` -/
+def stepLine (o : Opts) (st : PState) (raw : Str) : PState :=
+  let line := stripF o raw
+  if line.isEmpty || (o.suppress && (strip line).isEmpty) then st
+  else
+    match line with
+    | '#' :: rest =>
+      if st.header.isEmpty then { st with header := splitOnC '\t' (strip rest) } else st
+    | _ => { st with rows := st.rows ++ [pad st.header.length ((splitOnC '\t' line).map (stripF o))] }
+
+/-- `process_fns` with the `except KeyError` default -/
+def convOf {β : Type} (proc : List (Str × (Str → β))) (dflt : Str → β) (k v : Str) : β :=
+  match dget proc k with
+  | some f => f v
+  | none => dflt v
+
+/-- `current_d` of one data row -/
+def entryOf {β : Type} (proc : List (Str × (Str → β))) (dflt : Str → β) (header vals : List Str) :
+    List (Str × β) :=
+  mkDict ((header.tail.zip vals.tail).map (fun kv => (kv.1, convOf proc dflt kv.1 kv.2)))
+
+abbrev Mapping (β : Type) := List (Str × List (Str × β))
+
+/-- `MetadataMap.from_file(lines, strip_quotes, suppress_stripping, header, process_fns)` -/
+def fromFile {β : Type} (o : Opts) (hdr0 : List Str) (proc : List (Str × (Str → β))) (dflt : Str → β)
+    (lines : List Str) : Except Err (Mapping β) :=
+  let st := lines.foldl (stepLine o) { header := hdr0, rows := [] }
+  if st.header.isEmpty then .error .other
+  else if st.rows.isEmpty then .error .other
+  else if ¬ (st.rows.map (fun r => r.headD [])).Nodup then .error .other
+  else .ok (st.rows.map (fun vals => (vals.headD [], entryOf proc dflt st.header vals)))
+
+/-! ### the row grammar -/
+
+/-- a written field: blanks, optional quotes, the content, blanks (the line terminator belongs to
+    the blanks after the last field of a line) -/
+structure Field where
+  pre : Str
+  quoted : Bool
+  clean : Str
+  post : Str
+  deriving Repr, DecidableEq
+
+def Field.written (f : Field) : Str :=
+  f.pre ++ (if f.quoted then '"' :: (f.clean ++ ['"']) else f.clean) ++ f.post
+
+/-- what the field stands for under each stripping mode -/
+def Field.expect (o : Opts) (f : Field) : Str :=
+  (if o.suppress then f.pre else []) ++
+  (if o.stripQuotes || !f.quoted then f.clean else '"' :: (f.clean ++ ['"'])) ++
+  (if o.suppress then f.post else [])
+
+inductive GLine where
+  | header (names : List Str) (trail : Str)
+  | comment (raw : Str)
+  | blank (raw : Str)
+  | row (fs : List Field)
+  deriving Repr, DecidableEq
+
+def joinTab : List Str → Str
+  | [] => []
+  | [w] => w
+  | w :: ws => w ++ '\t' :: joinTab ws
+
+def GLine.render : GLine → Str
+  | .header names trail => '#' :: (joinTab names ++ trail)
+  | .comment raw => raw
+  | .blank raw => raw
+  | .row fs => joinTab (fs.map Field.written)
+
+def GLine.rowFields : GLine → Option (List Field)
+  | .row fs => some fs
+  | _ => none
+
+def GLine.isHeader : GLine → Bool
+  | .header _ _ => true
+  | _ => false
+
+def noneOf (p : Char → Bool) (s : Str) : Bool := s.all (fun c => !p c)
+def blankOnly (s : Str) : Bool := s.all (fun c => isWs c && c != '\t')
+
+/-- content without tab or quote whose first and last characters are not blank -/
+def cleanOk (s : Str) : Bool :=
+  noneOf (fun c => c == '\t' || c == '"') s &&
+  (match s.head? with | some c => !isWs c | none => true) &&
+  (match s.getLast? with | some c => !isWs c | none => true)
+
+def Field.ok (f : Field) : Bool := blankOnly f.pre && blankOnly f.post && cleanOk f.clean
+
+/-- a data row: at least one field; the ID (first field) is non-empty and the line does not start
+    with `#`; unless blanks are kept, the last written field is non-empty -/
+def rowOk (o : Opts) (fs : List Field) : Bool :=
+  fs.all Field.ok &&
+  (match fs.head? with
+   | some f => !f.clean.isEmpty && (f.expect o).head? != some '#'
+   | none => false) &&
+  (o.suppress || (match fs.getLast? with | some f => !f.clean.isEmpty | none => false))
+
+/-- header names: no tab, no quote; the first does not start and the last does not end with a blank -/
+def hdrOk (names : List Str) (trail : Str) : Bool :=
+  names.all (fun n => noneOf (fun c => c == '\t' || c == '"') n) &&
+  (match names.head? with | some n => (match n.head? with | some c => !isWs c | none => false) | none => false) &&
+  (match names.getLast? with | some n => (match n.getLast? with | some c => !isWs c | none => false) | none => false) &&
+  trail.all isWs
+
+def GLine.ok (o : Opts) : GLine → Bool
+  | .header names trail => hdrOk names trail
+  | .comment raw => (stripF o raw).head? == some '#'
+  | .blank raw => (strip (stripF o raw)).isEmpty
+  | .row fs => rowOk o fs
+
+/-- shape of a file: with a header override every `#` line is a comment and there is no header
+    line of the grammar; otherwise blanks, then the header line, then comments/blanks/rows -/
+def fileOk (o : Opts) (hdr0 : List Str) (f : List GLine) : Bool :=
+  f.all (GLine.ok o) &&
+  (if hdr0.isEmpty then
+    (match f.dropWhile (fun l => match l with | .blank _ => true | _ => false) with
+     | .header _ _ :: rest => rest.all (fun l => !l.isHeader)
+     | _ => false)
+   else f.all (fun l => !l.isHeader))
+
+def fileHeader (hdr0 : List Str) (f : List GLine) : List Str :=
+  if hdr0.isEmpty then
+    (match f.find? GLine.isHeader with
+     | some (.header names _) => names
+     | _ => [])
+  else hdr0
+
+def fileRows (f : List GLine) : List (List Field) := f.filterMap GLine.rowFields
+
+/-- the values of a data row, short rows padded with empty fields -/
+def rowVals (o : Opts) (n : Nat) (fs : List Field) : List Str := pad n (fs.map (Field.expect o))
+
+/-- the relation the rows describe: ID ↦ {header[c] ↦ conv_c(row[c])} -/
+def relOf {β : Type} (o : Opts) (hdr0 : List Str) (proc : List (Str × (Str → β))) (dflt : Str → β)
+    (f : List GLine) : Except Err (Mapping β) :=
+  let H := fileHeader hdr0 f
+  let rows := (fileRows f).map (rowVals o H.length)
+  if rows.isEmpty then .error .other
+  else if ¬ (rows.map (fun r => r.headD [])).Nodup then .error .other
+  else .ok (rows.map (fun v => (v.headD [], entryOf proc dflt H v)))
+
+/-! ## conversions of the `add-metadata` command -/
+
+inductive Val where
+  | str (s : Str)
+  | int (n : Int)
+  | flt (r : Rat)
+  | fspecial (s : String)
+  | list (xs : List Str)
+  | list2 (xs : List (List Str))
+  deriving Repr, DecidableEq
+
+def isDigit (c : Char) : Bool := '0' ≤ c && c ≤ '9'
+def natOfDigits (ds : Str) : Nat := ds.foldl (fun a c => a * 10 + (c.toNat - 48)) 0
+
+/-- underscores are allowed only between two digits -/
+def underscoresOk : Option Char → Str → Bool
+  | _, [] => true
+  | prev, c :: r =>
+    if c = '_' then
+      (match prev, r.head? with
+       | some p, some n => isDigit p && isDigit n
+       | _, _ => false) && underscoresOk (some c) r
+    else underscoresOk (some c) r
+
+def dropUnderscores (s : Str) : Str := s.filter (fun c => c != '_')
+
+def splitSign (s : Str) : Bool × Str :=
+  match s with
+  | '-' :: r => (true, r)
+  | '+' :: r => (false, r)
+  | _ => (false, s)
+
+/-- `int(x)` for base 10 (ASCII digits) -/
+def pyInt? (x : Str) : Option Int :=
+  let s := strip x
+  if !underscoresOk none s then none
+  else
+    let (neg, ds) := splitSign (dropUnderscores s)
+    if ds.isEmpty || !ds.all isDigit then none
+    else
+      let n : Int := natOfDigits ds
+      some (if neg then -n else n)
+
+inductive FVal where
+  | fin (r : Rat)
+  | inf (neg : Bool)
+  | nan
+  deriving Repr, DecidableEq
+
+def lower (s : Str) : Str := s.map Char.toLower
+
+/-- `float(x)`: the exact decimal value (binary64 rounding is not modelled) -/
+def pyFloat? (x : Str) : Option FVal :=
+  let s := strip x
+  if !underscoresOk none s then none
+  else
+    let (neg, body) := splitSign (dropUnderscores s)
+    let lb := lower body
+    if lb = "inf".toList || lb = "infinity".toList then some (.inf neg)
+    else if lb = "nan".toList then some .nan
+    else
+      let ip := body.takeWhile isDigit
+      let r1 := body.dropWhile isDigit
+      let (fp, r2) : Str × Str :=
+        match r1 with
+        | '.' :: r => (r.takeWhile isDigit, r.dropWhile isDigit)
+        | _ => ([], r1)
+      if ip.isEmpty && fp.isEmpty then none
+      else
+        let ex : Option Int :=
+          match r2 with
+          | [] => some 0
+          | e :: r =>
+            if e = 'e' || e = 'E' then
+              let (eneg, eds) := splitSign r
+              if eds.isEmpty || !eds.all isDigit then none
+              else some (if eneg then -(natOfDigits eds : Int) else (natOfDigits eds : Int))
+            else none
+        match ex with
+        | none => none
+        | some e =>
+          let mant : Nat := natOfDigits (ip ++ fp)
+          let e10 : Int := e - fp.length
+          let mag : Rat := if e10 ≥ 0 then ((mant * 10 ^ e10.toNat : Nat) : Rat)
+                           else mkRat mant (10 ^ (-e10).toNat)
+          some (.fin (if neg then -mag else mag))
+
+def convIdent (x : Str) : Val := .str x
+/-- `_split_on_semicolons` -/
+def convSc (x : Str) : Val := .list ((splitOnC ';' x).map strip)
+/-- `_split_on_semicolons_and_pipes` -/
+def convPipe (x : Str) : Val := .list2 ((splitOnC '|' x).map (fun y => (splitOnC ';' y).map strip))
+/-- `_int`: falls back to the text -/
+def convInt (x : Str) : Val := match pyInt? x with | some n => .int n | none => .str x
+/-- `_float`: falls back to the text -/
+def convFloat (x : Str) : Val :=
+  match pyFloat? x with
+  | some (.fin r) => .flt r
+  | some (.inf neg) => .fspecial (if neg then "-inf" else "inf")
+  | some .nan => .fspecial "nan"
+  | none => .str x
+/-- a user function of the named family (API level only) -/
+def convRev (x : Str) : Val := .str x.reverse
+
+def convNamed : String → Option (Str → Val)
+  | "ident" => some convIdent
+  | "sc" => some convSc
+  | "pipe" => some convPipe
+  | "int" => some convInt
+  | "float" => some convFloat
+  | "rev" => some convRev
+  | _ => none
+
+abbrev Proc := List (Str × (Str → Val))
+
+/-- `process_fns.update(dict.fromkeys(fields, f))` -/
+def procUpdate (p : Proc) (fields : Option (List Str)) (f : Str → Val) : Proc :=
+  match fields with
+  | none => p
+  | some ks => dictUpdate p (ks.map (fun k => (k, f)))
+
+structure CliOpts where
+  sc : Option (List Str) := none
+  pipe : Option (List Str) := none
+  ints : Option (List Str) := none
+  floats : Option (List Str) := none
+  sampleHeader : Option (List Str) := none
+  obsHeader : Option (List Str) := none
+
+/-- the `process_fns` dict `_add_metadata` builds -/
+def procOf (c : CliOpts) : Proc :=
+  procUpdate (procUpdate (procUpdate (procUpdate [] c.sc convSc) c.pipe convPipe) c.ints convInt) c.floats convFloat
+
+/-- the same, declaratively: float fields win over int fields over pipe over semicolon -/
+def convOfOpts (c : CliOpts) (k : Str) (v : Str) : Val :=
+  if (c.floats.getD []).contains k then convFloat v
+  else if (c.ints.getD []).contains k then convInt v
+  else if (c.pipe.getD []).contains k then convPipe v
+  else if (c.sc.getD []).contains k then convSc v
+  else convIdent v
+
+/-! ### canonical text of a value (must equal `vtext` of harness/c18.py) -/
+
+def hexDigit (n : Nat) : Char := if n < 10 then Char.ofNat (48 + n) else Char.ofNat (87 + n)
+
+def escChar (c : Char) : Str :=
+  if c = '"' then ['\\', '"']
+  else if c = '\\' then ['\\', '\\']
+  else if c = '\n' then ['\\', 'n']
+  else if c = '\r' then ['\\', 'r']
+  else if c = '\t' then ['\\', 't']
+  else if c.toNat = 8 then ['\\', 'b']
+  else if c.toNat = 12 then ['\\', 'f']
+  else if c.toNat < 32 then ['\\', 'u', '0', '0', hexDigit (c.toNat / 16), hexDigit (c.toNat % 16)]
+  else [c]
+
+/-- `json.dumps(s, ensure_ascii=False)` -/
+def jsonStr (s : Str) : String := String.ofList ('"' :: (s.flatMap escChar ++ ['"']))
+
+def ratText (r : Rat) : String := if r.den = 1 then toString r.num else s!"{r.num}/{r.den}"
+
+def listText (xs : List String) : String := "[" ++ ", ".intercalate xs ++ "]"
+
+def Val.text : Val → String
+  | .str s => jsonStr s
+  | .int n => toString n
+  | .flt r => "float:" ++ ratText r
+  | .fspecial s => "float:" ++ s
+  | .list xs => listText (xs.map jsonStr)
+  | .list2 xss => listText (xss.map (fun xs => listText (xs.map jsonStr)))
+
+/-- a parsed mapping as `add_metadata` receives it -/
+def toMdMapping (m : Mapping Val) : List (Id × Md) :=
+  m.map (fun ie => (String.ofList ie.1, ie.2.map (fun kv => (String.ofList kv.1, kv.2.text))))
+
+/-- `_add_metadata(table, sample_metadata, observation_metadata, …)`: both files are parsed before
+    the table is touched; sample metadata is added first -/
+def addMetadataCli {α : Type} (t : Table α) (sampleLines obsLines : Option (List Str)) (c : CliOpts) :
+    Except Err (Table α) :=
+  if sampleLines.isNone && obsLines.isNone then .error .value
+  else do
+    let proc := procOf c
+    let sm ← match sampleLines with
+      | some ls => (fromFile {} (c.sampleHeader.getD []) proc convIdent ls).map some
+      | none => pure none
+    let om ← match obsLines with
+      | some ls => (fromFile {} (c.obsHeader.getD []) proc convIdent ls).map some
+      | none => pure none
+    let t1 := match sm with
+      | some m => addMetadata t (toMdMapping m) .samp
+      | none => t
+    pure (match om with
+      | some m => addMetadata t1 (toMdMapping m) .obs
+      | none => t1)
+
+/-- the property of the command on observations: IDs/grid as before, and on each axis either the
+    update the file's relation describes or nothing -/
+def cliHolds {α : Type} [DecidableEq α] (before : Table α) (sm om : Option (List (Id × Md))) (after : Table α) : Bool :=
+  frameSame before after &&
+  (match sm with
+   | some m => addAxisClause before m .samp after
+   | none => decide (after.smd = before.smd)) &&
+  (match om with
+   | some m => addAxisClause before m .obs after
+   | none => decide (after.omd = before.omd))
+
+/-! ### comparing a parsed mapping with the relation, by lookups -/
+
+def entryMatches (exp act : List (Str × String)) : Bool :=
+  (dkeys exp ++ dkeys act).all (fun k => dget act k == dget exp k)
+
+def mappingMatches (exp act : List (Str × List (Str × String))) : Bool :=
+  exp.length == act.length &&
+  exp.all (fun ie => match dget act ie.1 with
+                     | some a => entryMatches ie.2 a
+                     | none => false) &&
+  act.all (fun ie => (dget exp ie.1).isSome)
+
+def textMapping (m : Mapping Val) : List (Str × List (Str × String)) :=
+  m.map (fun ie => (ie.1, ie.2.map (fun kv => (kv.1, kv.2.text))))
+
+/-- the parse clause: the implementation's dict (or its refusal) is the relation of the rows -/
+def parseHolds (exp : Except Err (Mapping Val)) (act : Except Err (List (Str × List (Str × String)))) : Bool :=
+  match exp, act with
+  | .ok e, .ok a => mappingMatches (textMapping e) a
+  | .error _, .error _ => true
+  | _, _ => false
+
+/-! ## one input type for `model_holds` -/
+
+inductive Input (α : Type) where
+  | add (t : Table α) (m : List (Id × Md)) (ax : Axis)
+  | del (t : Table α) (keys : Option (List String)) (ax : AxisArg)
+  | parse (o : Opts) (hdr0 : List Str) (proc : Proc) (f : List GLine)
+
+inductive Output (α : Type) where
+  | table (r : Except Err (Table α))
+  | mapping (r : Except Err (Mapping Val))
+
+def model {α : Type} : Input α → Output α
+  | .add t m ax => .table (.ok (addMetadata t m ax))
+  | .del t keys ax => .table (delMetadata t keys ax)
+  | .parse o hdr0 proc f => .mapping (fromFile o hdr0 proc convIdent (f.map GLine.render))
+
+def holds {α : Type} [DecidableEq α] : Input α → Output α → Bool
+  | .add t m ax, .table (.ok after) => addHolds t m ax after
+  | .del t keys ax, .table r =>
+    (match r with
+     | .ok after => ax != .bad && delHolds t keys ax after
+     | .error e => ax == .bad && e == .unknownAxis)
+  | .parse o hdr0 proc f, .mapping r =>
+    parseHolds (relOf o hdr0 proc convIdent f) (r.map textMapping)
+  | _, _ => false
+
+/-! ## JSON glue -/
+open Codec
+
+def asS (j : Json) : R Str := do pure (← asStr j).toList
+def sToJson (s : Str) : Json := .str (String.ofList s)
+
+def asAxisArg (j : Json) : R AxisArg := do
+  match (← asStr j) with
+  | "sample" => pure .sample
+  | "observation" => pure .observation
+  | "whole" => pure .whole
+  | _ => pure .bad
+
+def asMdMapping (j : Json) : R (List (Id × Md)) := asList (fun p => do
+  match (← asArr p) with
+  | [a, b] => pure ((← asStr a), (← asMd b))
+  | _ => .error "mapping pair") j
+
+def asField (j : Json) : R Field := do
+  pure { pre := (← asS (← fld j "pre")), quoted := (← boolF j "q"), clean := (← asS (← fld j "c")),
+         post := (← asS (← fld j "post")) }
+
+def asGLine (j : Json) : R GLine := do
+  match (← strF j "k") with
+  | "header" => pure (.header (← listF asS j "names") (← asS (← fld j "trail")))
+  | "comment" => pure (.comment (← asS (← fld j "raw")))
+  | "blank" => pure (.blank (← asS (← fld j "raw")))
+  | "row" => pure (.row (← listF asField j "fields"))
+  | s => .error s!"bad line kind {s}"
+
+def asOpts (j : Json) : R Opts := do
+  pure { stripQuotes := (← boolFD j "strip_quotes" true), suppress := (← boolFD j "suppress" false) }
+
+def asProc (j : Json) : R Proc := asList (fun p => do
+  match (← asArr p) with
+  | [a, b] =>
+    match convNamed (← asStr b) with
+    | some f => pure ((← asS a), f)
+    | none => .error "unknown conversion"
+  | _ => .error "proc pair") j
+
+def splitComma (j : Json) (k : String) : R (Option (List Str)) := do
+  match (← optF asStr j k) with
+  | none => pure none
+  | some s => pure (some (splitOnC ',' s.toList))
+
+def asCliOpts (j : Json) : R CliOpts := do
+  pure { sc := (← splitComma j "sc"), pipe := (← splitComma j "pipe"), ints := (← splitComma j "ints"),
+         floats := (← splitComma j "floats"), sampleHeader := (← splitComma j "sample_header"),
+         obsHeader := (← splitComma j "obs_header") }
+
+def textMappingToJson (m : List (Str × List (Str × String))) : Json :=
+  .arr (m.map (fun ie => Json.arr #[sToJson ie.1,
+    Json.mkObj (ie.2.map (fun kv => (String.ofList kv.1, Json.str kv.2)))])).toArray
+
+def asTextMapping (j : Json) : R (List (Str × List (Str × String))) := asList (fun p => do
+  match (← asArr p) with
+  | [a, b] => do
+    let e ← asMd b
+    pure ((← asS a), e.map (fun kv => (kv.1.toList, kv.2)))
+  | _ => .error "mapping pair") j
+
+def asResult {β : Type} (f : Json → R β) (j : Json) : R (Except Err β) :=
+  match optFld j "error" with
+  | some e => do pure (.error (asErr (← asStr e)))
+  | none => do pure (.ok (← f (← fld j "ok")))
+
+def resultToJson {β : Type} (f : β → Json) : Except Err β → Json
+  | .ok x => Json.mkObj [("ok", f x)]
+  | .error e => Json.mkObj [("error", .str e.name)]
+
+/-- tables compare through their canonical JSON (entries sorted by key) -/
+def sameTable (a b : Table Rat) : Bool := (tableToJson a).compress == (tableToJson b).compress
+
+def sameResult (a b : Except Err (Table Rat)) : Bool :=
+  match a, b with
+  | .ok x, .ok y => sameTable x y
+  | .error e, .error f => e == f
+  | _, _ => false
+
+def firstClause (cs : List (String × Bool)) : Verdict := allV (cs.map (fun c => chk c.1 c.2))
+
+def answer (v : Verdict) (agree : Bool) (model : Json) (extra : List (String × Json) := []) : Json :=
+  Json.mkObj (verdictToJson v ++ [("agree", .bool agree), ("model", model)] ++ extra)
+
+def addVerdict (before : Table Rat) (m : List (Id × Md)) (ax : Axis) (after : Table Rat) : Verdict :=
+  firstClause [("frame: IDs, order, grid, type unchanged", frameSame before after),
+    ("add: (ID, key) lookups on the updated axis", addAxisClause before m ax after),
+    ("add: other axis untouched", decide (after.md ax.other = before.md ax.other)),
+    ("C18.holds", addHolds before m ax after)]
+
+def delVerdict (before : Table Rat) (keys : Option (List String)) (arg : AxisArg) (after : Table Rat) : Verdict :=
+  firstClause [("frame: IDs, order, grid, type unchanged", frameSame before after),
+    ("del: observation axis lookups", delAxisClause before keys arg .obs after),
+    ("del: sample axis lookups", delAxisClause before keys arg .samp after),
+    ("C18.holds", delHolds before keys arg after)]
+
+/-- the file part of a request: grammar (optional), the lines as the harness rendered them -/
+structure FileReq where
+  gram : Option (List GLine)
+  lines : List Str
+
+def asFileReq (j : Json) : R FileReq := do
+  pure { gram := (← optF (asList asGLine) j "gram"), lines := (← listF asS j "lines") }
+
+def renderAgrees (f : FileReq) : Bool :=
+  match f.gram with
+  | some g => decide (g.map GLine.render = f.lines)
+  | none => true
+
+/-- the relation of the file when the grammar is given and within the guards -/
+def specOf (o : Opts) (hdr0 : List Str) (conv : Str → Str → Val) (f : FileReq) :
+    Option (Except Err (Mapping Val)) :=
+  match f.gram with
+  | some g =>
+    if fileOk o hdr0 g then
+      -- the conversions enter the relation as a function of the column name
+      let H := fileHeader hdr0 g
+      let rows := (fileRows g).map (rowVals o H.length)
+      if rows.isEmpty then some (.error .other)
+      else if ¬ (rows.map (fun r => r.headD [])).Nodup then some (.error .other)
+      else some (.ok (rows.map (fun v => (v.headD [],
+        mkDict ((H.tail.zip v.tail).map (fun kv => (kv.1, conv kv.1 kv.2)))))))
+    else none
+  | none => none
+
+def handleAdd (req : Json) : R Json := do
+  let before ← asTable (← fld req "table")
+  let m ← asMdMapping (← fld req "mapping")
+  let arg ← asAxisArg (← fld req "axis")
+  let after ← asTable (← fld req "after")
+  let err ← optF asStr req "error"
+  let mres := addMetadataArg before m arg
+  let obs : Except Err (Table Rat) := match err with | some e => .error (asErr e) | none => .ok after
+  let v : Verdict :=
+    match arg.toAxis?, err with
+    | some ax, none => addVerdict before m ax after
+    | some _, some _ => some "add: recognised axis must not raise"
+    | none, some e => firstClause [("add: unknown axis raises UnknownAxisError", asErr e == .unknownAxis),
+        ("add: refused call leaves the table unchanged", sameTable before after)]
+    | none, none => some "add: unknown axis must be refused"
+  let mh : Bool := match arg.toAxis? with
+    | some ax => holds (.add before m ax) (model (.add before m ax))
+    | none => true
+  pure (answer v (sameResult mres obs) (resultToJson tableToJson mres) [("model_holds", .bool mh)])
+
+def handleDel (req : Json) : R Json := do
+  let before ← asTable (← fld req "table")
+  let keys ← optF (asList asStr) req "keys"
+  let arg ← asAxisArg (← fld req "axis")
+  let after ← asTable (← fld req "after")
+  let err ← optF asStr req "error"
+  let mres := delMetadata before keys arg
+  let obs : Except Err (Table Rat) := match err with | some e => .error (asErr e) | none => .ok after
+  let v : Verdict :=
+    match err with
+    | none => if arg == .bad then some "del: unknown axis must be refused" else delVerdict before keys arg after
+    | some e => firstClause [("del: only an unknown axis raises, with UnknownAxisError", arg == .bad && asErr e == .unknownAxis),
+        ("del: refused call leaves the table unchanged", sameTable before after)]
+  let mh := holds (.del before keys arg) (model (.del before keys arg))
+  pure (answer v (sameResult mres obs) (resultToJson tableToJson mres) [("model_holds", .bool mh)])
+
+def sameMapping (a : Except Err (Mapping Val)) (b : Except Err (List (Str × List (Str × String)))) : Bool :=
+  match a, b with
+  | .ok x, .ok y => (textMappingToJson (textMapping x)).compress == (textMappingToJson y).compress
+  | .error _, .error _ => true
+  | _, _ => false
+
+def handleParse (req : Json) : R Json := do
+  let o ← asOpts (← fld req "opts")
+  let hdr0 := (← optF (asList asS) req "header").getD []
+  let proc ← asProc (← fld req "proc")
+  let f ← asFileReq (← fld req "file")
+  let act ← asResult asTextMapping (← fld req "result")
+  let mres := fromFile o hdr0 proc convIdent f.lines
+  let spec := specOf o hdr0 (convOf proc convIdent) f
+  let v : Verdict :=
+    match spec with
+    | some e => firstClause [("parse: rendered lines are the grammar's lines", renderAgrees f),
+        ("parse: dict is the relation of the rows", parseHolds e act)]
+    | none => none
+  let mh : Bool := match f.gram, spec with
+    | some g, some _ => holds (α := Rat) (.parse o hdr0 proc g) (model (.parse o hdr0 proc g))
+    | _, _ => true
+  pure (answer v (sameMapping mres act) (resultToJson (fun m => textMappingToJson (textMapping m)) mres)
+    [("guarded", .bool spec.isSome), ("model_holds", .bool mh)])
+
+def handleCli (req : Json) : R Json := do
+  let before ← asTable (← fld req "table")
+  let c ← asCliOpts (← fld req "opts")
+  let sf ← optF asFileReq req "sample"
+  let of' ← optF asFileReq req "obs"
+  let after ← asTable (← fld req "after")
+  let err ← optF asStr req "error"
+  let mres := addMetadataCli before (sf.map (·.lines)) (of'.map (·.lines)) c
+  let obs : Except Err (Table Rat) := match err with | some e => .error (asErr e) | none => .ok after
+  let specS := sf.map (fun f => specOf {} (c.sampleHeader.getD []) (convOfOpts c) f)
+  let specO := of'.map (fun f => specOf {} (c.obsHeader.getD []) (convOfOpts c) f)
+  let guarded : Bool := (match specS with | some none => false | _ => true) &&
+                        (match specO with | some none => false | _ => true)
+  let render := (match sf with | some f => renderAgrees f | none => true) &&
+                (match of' with | some f => renderAgrees f | none => true)
+  let flat (s : Option (Option (Except Err (Mapping Val)))) : Option (Except Err (Mapping Val)) := s.bind id
+  let anyErr : Bool := (match flat specS with | some (.error _) => true | _ => false) ||
+                       (match flat specO with | some (.error _) => true | _ => false)
+  let mdOf (s : Option (Except Err (Mapping Val))) : Option (List (Id × Md)) :=
+    match s with | some (.ok m) => some (toMdMapping m) | _ => none
+  let v : Verdict :=
+    if !guarded then none
+    else if sf.isNone && of'.isNone then
+      firstClause [("cli: no mapping file is refused", err.isSome), ("cli: refused call leaves the table unchanged", sameTable before after)]
+    else if anyErr then
+      firstClause [("cli: unusable mapping file is refused", err.isSome), ("cli: refused call leaves the table unchanged", sameTable before after)]
+    else
+      firstClause [("cli: rendered lines are the grammar's lines", render),
+        ("cli: usable mapping files are accepted", err.isNone),
+        ("frame: IDs, order, grid, type unchanged", frameSame before after),
+        ("cli: table carries exactly the update the files describe", cliHolds before (mdOf (flat specS)) (mdOf (flat specO)) after)]
+  pure (answer v (sameResult mres obs) (resultToJson tableToJson mres) [("guarded", .bool guarded)])
+
+def handle (req : Json) : R Json := do
+  match (← strF req "op") with
+  | "add" => handleAdd req
+  | "del" => handleDel req
+  | "parse" => handleParse req
+  | "cli" => handleCli req
+  | s => .error s!"C18: unknown op {s}"
+
 end Biom.C18
